@@ -7,4 +7,5 @@ cargo build --release --offline -p e1_pollsim
 for ws in e1_pull e1_sink e1_push e2_wakesim; do
   (cd "$ws" && cargo build --release --offline)
 done
+(cd e4_hydroprod && cargo build --release --offline -p e4_hydroprod)
 echo "setup ok"
